@@ -20,6 +20,13 @@ fn cmp(a: u32, b: u32) -> &'static str {
     if eq != (r == "eq") {
         return "eq-disagrees";
     }
+    // the comparison operators are separate (overridable) trait methods: they must say what partial_cmp says
+    let (x, y) = (Serial(a), Serial(b));
+    let want = match r { "lt" => (true, true, false, false), "eq" => (false, true, false, true),
+                         "gt" => (false, false, true, true), _ => (false, false, false, false) };
+    if (x < y, x <= y, x > y, x >= y) != want {
+        return "operators-disagree-with-partial_cmp";
+    }
     r
 }
 
